@@ -81,6 +81,10 @@ def cases(ctx):
             number = rng.choice([1, 2])
             yield {"kind": "requests", "type": "M", "number": number, "socket": 0, "remote": "bob",
                    "params": [dict(rng.choice(pool)) for _ in range(k_req)]}
+    for n0 in (1, 2, 3):
+        for n1 in (1, 2):
+            if mine():
+                yield {"kind": "early", "numbers": [n0, n1]}
     # ---- result side --------------------------------------------------------------------------------------
     for role in ("create", "recv"):
         for api in ("keep", "keep_with_info", "measure", "rsp"):
@@ -148,7 +152,45 @@ def _requests(ctx, case):
     ctx.case(case, True)
 
 
+def _early(ctx, case):
+    """Two sockets: the pairs for the second socket arrive before its recv instruction has run (the remote node was faster)."""
+    from netqasm.sdk.epr_socket import EPRSocket
+    n0, n1 = case["numbers"]
+    es0 = EPRSocket("bob", epr_socket_id=0, remote_epr_socket_id=0)
+    es1 = EPRSocket("bob", epr_socket_id=1, remote_epr_socket_id=1)
+
+    def fld(base):
+        return lambda pair, name: (base + tag(pair, M_FIELDS, name)) if name in ("create_id", "goodness", "measurement_outcome") else None
+    r0 = PlannedRequest("recv", "M", n0, socket=0, bells=[(i + 1) % 4 for i in range(n0)], fields=fld(0))
+    r1 = PlannedRequest("recv", "M", n1, socket=1, bells=[(i + 2) % 4 for i in range(n1)], fields=fld(50000))
+    r1.early = True
+    link = LinkModel([r0, r1], partners=False)
+    pipe = Pipe(epr_sockets=[es0, es1], link=link, max_qubits=5)
+    try:
+        with pipe.conn as conn:
+            m0 = es0.recv_measure(n0, expect_phi_plus=False)
+            m1 = es1.recv_measure(n1, expect_phi_plus=False)
+            conn.flush()
+            for base, res, sock in ((0, m0, 0), (50000, m1, 1)):
+                for i, r in enumerate(res):
+                    ctx.count("result_handles_read", 2)
+                    want_o = base + tag(i, M_FIELDS, "measurement_outcome")
+                    want_g = base + tag(i, M_FIELDS, "goodness")
+                    if r.raw_measurement_outcome.value != want_o or r.generation_duration.value != want_g:
+                        ctx.fail(case, f"socket {sock}, pair {i}: handles read outcome {r.raw_measurement_outcome.value} / duration "
+                                       f"{r.generation_duration.value}; that pair's response carried {want_o} / {want_g} "
+                                       f"(the other socket's pairs arrived before its recv instruction ran)")
+                        return ctx.case(case, True)
+    except (hc.ControllerFault, hc.Deadlock, hc.StepLimit) as e:
+        ctx.fail(case, f"two sockets with early arrivals: controller run failed: {e}")
+        return ctx.case(case, True)
+    ctx.count("early_arrival_cases")
+    ctx.case(case, True)
+
+
 def run_case(ctx, case):
+    if case["kind"] == "early":
+        return _early(ctx, case)
     if case["kind"] == "requests":
         return _requests(ctx, case)
     if case["kind"] == "request":
